@@ -201,6 +201,26 @@ def x_ani(report):
             "    prob = binom.cdf(set_size / scaled * (relative_error + 1), set_size, 1 / scaled) - "
             "binom.cdf(-set_size / scaled * (relative_error - 1), set_size, 1 / scaled)\n"
             "return prob")
+    # the comparison / result classes (plumbing modelled by cmpDirectional / cmpAvgProperty / cmpEstimateAll / prefetchAni /
+    # searchAni / csvPresent): the method bodies the model was written against are kept in ani_class_pins.json
+    import json
+    import os
+    pins = json.load(open(os.path.join(os.path.dirname(os.path.abspath(__file__)), "ani_class_pins.json")))
+    sc = ast.parse(read("src/sourmash/sketchcomparison.py")).body
+    se = ast.parse(read("src/sourmash/search.py")).body
+    where = {"Frac": _find(sc, ast.ClassDef, "FracMinHashComparison").body, "Base": _find(sc, ast.ClassDef, "BaseMinHashComparison").body,
+             "BaseResult": _find(se, ast.ClassDef, "BaseResult").body, "SearchResult": _find(se, ast.ClassDef, "SearchResult").body,
+             "PrefetchResult": _find(se, ast.ClassDef, "PrefetchResult").body}
+    for key, want_body in pins.items():
+        cls, meth = key.split(".", 1)
+        _expect(key, _body_src(_find(where[cls], ast.FunctionDef, meth)), want_body)
+    frac_methods = {n.name for n in where["Frac"] if isinstance(n, ast.FunctionDef)}
+    known = {"__post_init__", "pass_threshold", "size_may_be_inaccurate", "total_unique_intersect_hashes", "mh1_containment_in_mh2",
+             "estimate_ani_from_mh1_containment_in_mh2", "mh2_containment_in_mh1", "estimate_ani_from_mh2_containment_in_mh1",
+             "max_containment", "estimate_max_containment_ani", "avg_containment", "avg_containment_ani",
+             "estimate_all_containment_ani", "weighted_intersection"}
+    if frac_methods != known:
+        raise Unrecognised("FracMinHashComparison", f"method set changed: +{sorted(frac_methods - known)} -{sorted(known - frac_methods)}")
     pvals = {v for k, v in out.items() if k.endswith("prob_threshold") or k == "p_threshold"}
     evals = {v for k, v in out.items() if k.endswith("err_threshold") or k == "je_threshold"}
     if len(pvals) != 1 or len(evals) != 1:
@@ -242,6 +262,16 @@ def x_ani(report):
         raise Unrecognised("ani_ci_from_containment (rust)", f"{n_roots} root searches, {n_default} with unwrap_or_default")
     if norm("Ok((1.0 - dist_sol1, 1.0 - dist_sol2))") not in norm(cib):
         raise Unrecognised("ani_ci_from_containment (rust)", "return expression changed")
+    # the native GatherResult's ANI fields (rustGatherAni), src/core/src/index/mod.rs
+    gs = norm(rust_fn_body(strip_rust_comments(read("src/core/src/index/mod.rs")), "calculate_gather_stats"))
+    for frag in ("let f_orig_query = intersect_orig as f64 / orig_query.size() as f64;",
+                 "let f_match_orig = intersect_orig as f64 / match_mh.size() as f64;",
+                 "let query_containment_ani = ani_from_containment(f_orig_query, ksize);",
+                 "let match_containment_ani = ani_from_containment(f_match_orig, ksize);",
+                 "let average_containment_ani = (query_containment_ani + match_containment_ani) / 2.0;",
+                 "let max_containment_ani = f64::max(query_containment_ani, match_containment_ani);"):
+        if norm(frag) not in gs:
+            raise Unrecognised("calculate_gather_stats (rust)", "fragment missing: " + frag)
     out["rust.ci_defaults_on_failure"] = n_default == 2
     report["outputs"]["ani"] = out
     report["inputs"]["distance_utils.py / minhash.py / ani_utils.rs"] = "AST / token shapes of the ANI estimators (see harness/translators/ani.py)"
